@@ -24,6 +24,13 @@ class SFrame(SOpaque):
     def getitem(self, I, idx, node):
         if isinstance(idx, SMask):
             return SFrame(ufun("frame.filter", U(), U(), U())(self.t, idx.t), "frame")     # positional boolean filter
+        if isinstance(idx, (str,)) or type(idx).__name__ == "SStr":
+            from .pandas_m import TSeries, series_len       # frame[name]: the column of that name, one row per row of the frame
+            from .ops import str_term
+            col = TSeries().wrap(ufun("frame.col", U(), I_, U())(self.t, str_term(idx)))
+            if not I.ctx.spec_mode:
+                I.ctx.assume(series_len(col.t) == ufun("frame.nrows", U(), I_)(self.t))
+            return col
         if isinstance(idx, SOpaque):
             return SFrame(ufun("frame.select", U(), U(), U())(self.t, idx.t), "frame")     # column subset (a copy)
         raise Unsupported(f"DataFrame[{idx!r}]")
